@@ -24,7 +24,7 @@ CHECKS = {
    "Generated well-formed T4 datasets (1..24 samples, appearing/disappearing instances, categories inside and outside the label table, T4 and nuScenes visibility spellings or none, extra camera/radar sensors, sensor records stamped after their sample, shuffled row order, negated quaternions) are loaded by the real loader for detection / tracking / fp_validation managers and directly for the sensing task, in both frames; frames, timestamps, one object per annotation, uuid, label, attributes, size, point count, visibility, pose in map / ego frame, stored ego->map transform, tracked-path window; a second load (evaluator restart) must give equal frames.",
    "No disk faults: the statement quantifies over well-formed datasets. Label conversion itself (C14) is trusted. Tracked-path positions are judged in the map frame only (the devkit returns global records)."),
  "C19": ("primary", "3 (C19)", TECH % "end-of-run check over the recorded history handed over through the pickle result store to the real analyzer",
-   "At analyze events (mid-run and at the end; several scenes when the evaluator was restarted) the manager's frame results are pickled, unpickled and fed to PerceptionAnalyzer3D with 1/3/9 area divisions: per-status counts, estimate count, ground-truth count, row pairs in documented order with ego-frame x/y/yaw from world truth, area index, errors = GT - estimate (yaw wrapped), mean/RMS/max summaries, rates in [0,1], confusion-matrix sum, label and scene selections, per-object status tallies.",
+   "At analyze events (mid-run and at the end; several scenes when the evaluator was restarted) the manager's frame results are pickled, unpickled and fed to PerceptionAnalyzer3D (fresh, or recycled: add / clear / add) with 1/3/9 area divisions: per-status counts, estimate count, ground-truth count, row pairs in documented order with ego-frame x/y/yaw from world truth, area index, errors = GT - estimate (yaw wrapped), mean/RMS/max summaries, rates in [0,1], confusion-matrix sum, label and scene selections, per-object status tallies.",
    "Three listed findings (known_findings.json KF-C19-1..3) are reported as KNOWN-FINDING; analysis is only run when the evaluator's x/y bounds are scalars (the analyzer's grid takes scalars); empty tables are skipped."),
  "C01": ("secondary: step-conformance clause", "4 (C01)", TECH % "monitor on every matching call the stateful manager makes, predicates from the statement",
    "Every get_object_results call made by the manager in every simulated history is recorded (inputs, output) and judged: one-to-one, nothing foreign, same frame id only, within the matchable radius of the GT label, completeness outside FP validation, unpaired estimates dropped in FP validation (including empty ground truth), caller lists untouched.",
